@@ -36,12 +36,31 @@ def frames(rng, nframes, declare=True, maxw=8, maxh=5):
             # a canvas without cells in between: the next draw is a size change again (full retransmission),
             # although the picture and its size are the same as before the empty canvas
             zw, zh = rng.choice([(0, 0), (0, h), (w, 0), (0, rng.randrange(0, maxh + 1)), (rng.randrange(0, maxw + 1), 0)])
-            parts.append(rng.choice(["cv %d %d", "rz %d %d"]) % (zw, zh))
-            parts.append("dr")
-            parts.append("cv %d %d" % (w, h))
-            for (x, y), e in sorted(cells.items()):
+            how = rng.choice(["cv %d %d", "rz %d %d"])
+            parts.append(how % (zw, zh))
+            if rng.random() < 0.7:
+                parts.append("dr")
+            if how.startswith("rz") and rng.random() < 0.6:
+                parts.append("rz %d %d" % (w, h))        # the SAME canvas object resized through a zero area and back
+                cells = {}
+            else:
+                parts.append("cv %d %d" % (w, h))
+                for (x, y), e in sorted(cells.items()):
+                    if x < w and y < h:
+                        parts.append(px(x, y, e))
+        elif f > 0 and r < 0.33:
+            # a new canvas object of the same size constructed at the address of the old one, given the same number of
+            # edits as the last frame received (an identity stamp of address + edit count cannot tell them apart)
+            parts.append("nc %d %d" % (w, h))
+            old = cells
+            cells = {}
+            for (x, y), e in sorted(old.items()):
                 if x < w and y < h:
-                    parts.append(px(x, y, e))
+                    e2 = tg.element(rng, e) if rng.random() < 0.5 else e
+                    cells[(x, y)] = e2
+                    parts.append(px(x, y, e2))
+            parts.append("dr")
+            continue
         nedit = rng.choice([0, 1, 1, 2, 3, 4, w * h])
         for _ in range(nedit):
             x, y = tg.pos(rng, w, h)
